@@ -6,6 +6,8 @@ From Coq Require Import NArith.
 From I18n Require Import Lib.Outcome Model.MoParser Spec.MoFormat Proofs.Packaging.
 From I18n Require Import Model.PoUnescape Model.PoParser Spec.PoSyntax Proofs.PoParser.
 From I18n Require Import Model.PoLexer Proofs.PackagingFiles.
+From Coq Require Import ZArith.
+From I18n Require Import Model.CliPy Generated.CliSrc Proofs.CliSrc.
 Import ListNotations.
 
 (* with fake_root = (real_root, fake_root): a path under real_root is printed as fake_root ++ the rest,
@@ -82,3 +84,86 @@ Example C17_ex_member :   (* "/t" "p.dsc" "po/a.po": unpacked at /t/s/po/a.po, p
   (unpacked_member false [47;116] [112;111;47;97;46;112;111] = [47;116;47;115;47;112;111;47;97;46;112;111] /\
    printed_member false [47;116] [112;46;100;115;99] [112;111;47;97;46;112;111] = [112;46;100;115;99;47;112;111;47;97;46;112;111])%N.
 Proof. split; reflexivity. Qed.
+
+(* ---- source tie (notes/SRC15.md): check_deb, check_file, copy_options and cli.Checker.tag as translated from lib/cli.py on every
+   run (Generated/CliSrc.v) equal Model/Cli.v; dpkg-deb / dpkg-source, the temporary directory, os.walk, islink / isfile and the real
+   checker are arguments on both sides *)
+Theorem C17_source_tie_check_deb : forall (L X O : Type) (check_call : list str -> bool -> io L X unit) (mkdtemp : str -> res X str)
+    (cleanup : str -> io L X unit) (os_walk : str -> list (str * list str * list str)) (islink isfile : str -> bool)
+    (rec_check_file : str -> options O -> io L X unit),
+  (forall p d, mkdtemp p = Ret d -> path_ok d) ->
+  forall filename o,
+    src_check_deb check_call mkdtemp cleanup os_walk islink isfile rec_check_file filename o
+    = check_deb check_call mkdtemp cleanup os_walk islink isfile rec_check_file filename o.
+Proof. exact @src_check_deb_eq. Qed.
+Print Assumptions C17_source_tie_check_deb.
+
+Theorem C17_source_tie_check_file : forall (L X O : Type) (check_call : list str -> bool -> io L X unit) (mkdtemp : str -> res X str)
+    (cleanup : str -> io L X unit) (os_walk : str -> list (str * list str * list str)) (islink isfile : str -> bool)
+    (checker_check rec_check_file : str -> options O -> io L X unit),
+  (forall p d, mkdtemp p = Ret d -> path_ok d) ->
+  forall path o,
+    src_check_file checker_check check_call mkdtemp cleanup os_walk islink isfile rec_check_file path o
+    = check_file checker_check (check_deb check_call mkdtemp cleanup os_walk islink isfile rec_check_file) path o.
+Proof. exact @src_check_file_eq. Qed.
+Print Assumptions C17_source_tie_check_file.
+
+Theorem C17_source_tie_check_regular_file : forall (L X O : Type) (checker_check : str -> options O -> io L X unit) filename o,
+  src_check_regular_file checker_check filename o = checker_check filename o.
+Proof. exact @src_check_regular_file_eq. Qed.
+Print Assumptions C17_source_tie_check_regular_file.
+
+Theorem C17_source_tie_copy_options : forall (O : Type) (o : options O) us, src_copy_options o us = copy_options o us.
+Proof. exact @src_copy_options_eq. Qed.
+Print Assumptions C17_source_tie_copy_options.
+
+Theorem C17_source_tie_tag : forall (L X T E O : Type) (get_tag : str -> option T) (tag_format : T -> str -> E -> bool -> res X L)
+    (opts : options O) fake_path tagname extra,
+  src_tag get_tag tag_format opts fake_path tagname extra = cli_tag get_tag tag_format opts fake_path tagname extra.
+Proof. exact @src_tag_eq. Qed.
+Print Assumptions C17_source_tie_tag.
+
+(* what the model of check_deb gives: "nothing for other members" - unknown-file-type is not printed for a member, every other
+   tag is treated as for the package's own options *)
+Theorem C17_deb_unknown_file_type_silent : forall (L X T E O : Type) (get_tag : str -> option T) (tag_format : T -> str -> E -> bool -> res X L)
+    (o : options O) binary tmpdir filename fake_path extra,
+  cli_tag get_tag tag_format (deb_options o binary tmpdir filename) fake_path s_unknown_file_type extra = io_ret tt.
+Proof. exact @deb_unknown_file_type_silent. Qed.
+Print Assumptions C17_deb_unknown_file_type_silent.
+
+Theorem C17_deb_other_tags : forall (L X T E O : Type) (get_tag : str -> option T) (tag_format : T -> str -> E -> bool -> res X L)
+    (o : options O) binary tmpdir filename fake_path tagname extra,
+  str_eqb tagname s_unknown_file_type = false ->
+  cli_tag get_tag tag_format (deb_options o binary tmpdir filename) fake_path tagname extra
+  = cli_tag get_tag tag_format o fake_path tagname extra.
+Proof. exact @deb_other_tags. Qed.
+Print Assumptions C17_deb_other_tags.
+
+(* the fake root handed to the members is the pair C17_member_path is about *)
+Theorem C17_deb_fake_root : forall (O : Type) (o : options O) binary tmpdir filename member,
+  o_fake_root (deb_options o binary tmpdir filename) = Some (real_root binary tmpdir, filename ++ [47%N]) /\
+  fake_path N.eqb (real_root binary tmpdir) (filename ++ [47%N]) (unpacked_member binary tmpdir member) = filename ++ [47%N] ++ member.
+Proof. exact @deb_fake_root. Qed.
+Print Assumptions C17_deb_fake_root.
+
+(* a package whose unpacking and members end normally prints what the unpacker printed, then the members' outputs (regular
+   files that are not symbolic links, in os.walk order, each checked with the package's options), then what removing the directory
+   printed *)
+Theorem C17_check_deb_output : forall (L X O : Type) (check_call : list str -> bool -> io L X unit) mkdtemp (cleanup : str -> io L X unit)
+    os_walk islink isfile (cf : str -> options O -> io L X unit) filename (o : options O) binary d w1 w2,
+  deb_kind filename = Some binary -> mkdtemp s_tmp_prefix = Ret d ->
+  check_call (unpack_argv binary filename d) (negb binary) = (w1, Ret tt) -> cleanup d = (w2, Ret tt) ->
+  (forall p, snd (cf p (deb_options o binary d filename)) = Ret tt) ->
+  check_deb check_call mkdtemp cleanup os_walk islink isfile cf filename o
+  = (w1 ++ flat_map (fun p => fst (cf p (deb_options o binary d filename))) (deb_members islink isfile (os_walk d)) ++ w2, Ret tt).
+Proof. exact @check_deb_output. Qed.
+Print Assumptions C17_check_deb_output.
+
+(* non-vacuity: the translated check_deb on "a.deb" unpacked in "/t": one directory with a link, a regular file and a non-file *)
+Example C17_src_ex :
+  src_check_deb (L := str) (X := unit) (O := unit) (fun _ _ => io_ret tt) (fun _ => Ret [47; 116]%N) (fun _ => io_ret tt)
+    (fun d => [(d, [], [[108%N]; [102%N]; [100%N]])]) (fun p => N.eqb (last p 0%N) 108) (fun p => negb (N.eqb (last p 0%N) 100))
+    (fun p o => io_write [p; fst (match o_fake_root o with Some r => r | None => ([], []) end); snd (match o_fake_root o with Some r => r | None => ([], []) end)])
+    [97; 46; 100; 101; 98]%N (mkOptions true 1%Z [] None tt)
+  = ([[47; 116; 47; 102]%N; [47; 116; 47]%N; [97; 46; 100; 101; 98; 47]%N], Ret tt).
+Proof. vm_compute. reflexivity. Qed.
